@@ -352,7 +352,9 @@ def run(ctx):
     n = r_opsem(ctx)
     from . import leafprog
     try:
-        leafprog.r_expression_eval_program(ctx)   # what a combination denotes is what its accessor computes from the leaves
+        if getattr(ctx, "_evalprog_done", None) is None:
+            leafprog.r_expression_eval_program(ctx)   # what a combination denotes is what its accessor computes from the leaves
+            ctx._evalprog_done = True
     except AnalysisError as ex:
         ctx.notes.append("R-EVALSHAPE program skipped: %s" % ex)
     ctx.floor("operator methods", ctx.analysed.get("operator methods", 0), 20)
